@@ -432,10 +432,41 @@ func c03Run(c *core.Ctx, idx int) {
 				partial = true
 				c.Count("partly-fitting-batch")
 			}
-			if a, d := ApplyLOp(s, m, op); a != "" {
+			if nonest && op.K == "Push" && r.Chance(1, 2) {
+				// under no-nesting a Stack in the batch is skipped; it does not use up room, and what follows it is judged
+				// against the room that really remains
+				real := append([]any{}, op.Vals...)
+				at := r.Intn(len(real) + 1)
+				real = append(real[:at], append([]any{stackage.And().Push("refused")}, real[at:]...)...)
+				if r.Bool() {
+					real = append([]any{stackage.Or()}, real...)
+				}
+				s.Push(real...)
+				m.Push(op.Vals...)
+				log[len(log)-1] += " (+refused Stacks in the batch)"
+				c.Count("push-batches-with-refused-stacks")
+			} else if a, d := ApplyLOp(s, m, op); a != "" {
 				fail(op.K, a, d)
 				return false
 			}
+		}
+		if r.Chance(1, 10) {
+			// a read-only spell: the accessors answer as before (nothing is offered while it lasts)
+			switch r.Intn(3) {
+			case 0:
+				s.SetReadOnly(true)
+			case 1:
+				s.ReadOnly(true)
+			default:
+				s.ReadOnly()
+			}
+			a, d := ObserveList(s, m)
+			s.SetReadOnly(false)
+			if a != "" {
+				fail(op.K, "while-read-only:"+a, d)
+				return false
+			}
+			c.Count("observed-while-read-only")
 		}
 		if a, d := ObserveList(s, m); a != "" {
 			fail(op.K, a, d)
